@@ -233,6 +233,10 @@ def run(tier, seed, replay=None):
         "model_impl_disagreements": len(mm),
         "metric_table_rows": len(re.findall(r"mkMetric ", open(gen_metric_table.OUT).read())) - 1,
     })
+    if not mm and not ctx.violations and not err:
+        # the case files are large (every response travels into Coq); keep them only for diagnosis
+        import shutil
+        shutil.rmtree(os.path.join(vlib.WORK, prop), ignore_errors=True)
     if mm:
         c = mm[0]
         ctx.problems.append("correspondence: model and implementation disagree on %d case(s), first: state #%d %s" % (len(mm), c[0], c[1]))
